@@ -56,11 +56,23 @@ def place(cls, par_for_coords, chr_prefix, k):
     if cls == "auto":
         return pre + "1", 1000 + 1000 * k, 1500 + 1000 * k
     if cls in ("X", "Y"):
+        if k % 4 == 1:
+            # abutting the end of PAR1 from outside: an ordinary sex-chromosome bin
+            hi1 = g["PAR1" + cls][1]
+            return pre + cls, hi1 + 1000 * (k // 4), hi1 + 1000 * (k // 4) + 90
+        if k % 4 == 3:
+            # abutting the start of PAR2 from outside
+            lo2 = g["PAR2" + cls][0]
+            return pre + cls, lo2 - 1000 * (k // 4) - 90, lo2 - 1000 * (k // 4)
         # well outside every PAR of both builds
         return pre + cls, 20_000_000 + 1000 * k, 20_000_500 + 1000 * k
     lo, hi = g[cls]
     chrom = pre + cls[-1]
-    s = lo + 100 * k
+    if k % 3 == 1:
+        # from the far side: the first such row ends flush with the PAR end (half-open: still inside)
+        e = hi - 1000 * (k // 3)
+        return chrom, e - 90, e
+    s = lo + 100 * k  # the first row starts flush with the PAR start
     return chrom, s, min(s + 90, hi)
 
 
